@@ -347,7 +347,7 @@ impl Prop for C03 {
 
     fn plan(&self, tier: Tier) -> Plan {
         Plan::new(match tier {
-            Tier::Quick => 8000,
+            Tier::Quick => 30000,
             Tier::Thorough => 200_000,
         })
     }
